@@ -131,6 +131,10 @@ Unambiguous(s, U) ==
 (* basic regular expression consists of them alone).  Stated on the code     *)
 (* point of the separator.                                                   *)
 ShellSafe(cp) == cp \in 33..127 /\ cp \notin {36, 46, 91, 92, 94}
+(* ... and it takes the variables from the lines of `export`, which it splits *)
+(* with `cut -d '=' -f 2`: a separator equal to '=' - the encoder's choice,  *)
+(* unlike the characters of the values - is cut away with all that follows.  *)
+EnvLineSafe(cp) == cp # 61
 
 -----------------------------------------------------------------------------
 (* reference encoder (for model-checking the codec itself) *)
